@@ -325,6 +325,12 @@ func genC17(r *rng, tier string, res *Result) {
 						best, bestSeq = nm, seq
 					}
 				}
+				if len(segs) > 1 && g.r.chance(40) {
+					// the damaged tail is on an OLDER segment (recovery truncates any segment whose scan
+					// ends in an invalid record)
+					best = segs[g.r.intn(len(segs))]
+					g.c.tag("torn_tail_on_an_older_segment")
+				}
 				g.do("setlock 1")
 				if best != "" { // (compaction may have removed every segment: nothing to tear then)
 					id, seq, _ := pogreb.VerifParseSegmentName(best)
